@@ -26,6 +26,12 @@ func ErrSeeds() []*Grammar {
 		"S: a b | a error",
 		"S: A a ; A: error | b",
 		"S: error semi S | a",
+		// the error symbol is a look-ahead of a completed production (an error alternative may follow) while no state
+		// on the stack can shift it
+		"S: A B ; A: a ; B: b | error c",
+		"S: S A | a ; A: error b | b",
+		"S: A B c ; A: a | a a ; B: error | b",
+		"S: A B ; A: empty ; B: b | error c",
 	}
 	var out []*Grammar
 	for _, s := range specs {
